@@ -154,6 +154,13 @@ fn drive_v1(stream: &[u8], a: usize, bounds: &[usize], prop: &str, obs: &mut dyn
                 return Err(breach(prop, "C05.e", format!("drain loop does not terminate at abs {}", base)));
             }
         }
+        if have % 3 == 0 {
+            // "empty poll": the transport returned no new data and the caller scans the unchanged
+            // tail again; judged like any other call (it must be idempotent)
+            let (c, _d) = scan_once(&tail, base, have, prop, obs, out)?;
+            tail.drain(..c);
+            base += c;
+        }
     }
     Ok(base - a)
 }
